@@ -216,6 +216,19 @@ bool StepScript(InterpreterEnv& env)
     }
 
     if (env.successor_script.size()) {
+        // figure out if p2sh
+        const CScript& next = env.successor_script;
+        const bool next_is_p2sh = (
+            (env.flags & SCRIPT_VERIFY_P2SH) &&
+            next.size() == 23 &&
+            next[0] == OP_HASH160 &&
+            next[1] == 20 &&
+            next[22] == OP_EQUAL
+        );
+        // BIP16: the scriptSig of a pay-to-script-hash spend must consist of pushes only; SIGPUSHONLY demands it of every scriptSig
+        if ((next_is_p2sh || (env.flags & SCRIPT_VERIFY_SIGPUSHONLY)) && !script.IsPushOnly())
+            return set_error(serror, SCRIPT_ERR_SIG_PUSHONLY);
+
         script = env.successor_script;
         env.successor_script.clear();
         env.altstack.clear();
@@ -223,14 +236,7 @@ bool StepScript(InterpreterEnv& env)
         pend = script.end();
         env.curr_op_seq++;
 
-        // figure out if p2sh
-        env.is_p2sh = (
-            (env.flags & SCRIPT_VERIFY_P2SH) &&
-            script.size() == 23 &&
-            script[0] == OP_HASH160 &&
-            script[1] == 20 &&
-            script[22] == OP_EQUAL
-        );
+        env.is_p2sh = next_is_p2sh;
         if (env.is_p2sh) {
             // we have "executed" the sigscript already (in the form of pushes onto the stack),
             // so we need to copy the stack here
